@@ -340,9 +340,12 @@ func applyOne(ctx *applyCtx, doc D, op, path string, arg any) (D, error) {
 		if cur == Missing {
 			return doc, nil
 		}
-		d := unset(doc, parts).(D)
-		d = unset(d, strings.Split(to, ".")).(D)
-		res, err := put(d, strings.Split(to, "."), cur)
+		// the value is set at the target (an existing target field keeps its position, as with $set), then the
+		// source is removed
+		res, err := put(doc, strings.Split(to, "."), cur)
+		if err == nil {
+			res = unset(res, parts)
+		}
 		if err != nil {
 			return nil, err
 		}
